@@ -8,6 +8,7 @@ R5  every table read of the chip layer (opnmidi_opn2.cpp) is in range for all in
 R4  the frequency (octave) search of OPN2::noteOn terminates: a loop whose only progress is halving a floating value is
     entered only with a finite upper bound on that value or carries an integer counter bound in its condition.
 """
+import collections
 from ..core import *
 from ..e1 import *
 from ..logic import *
@@ -22,6 +23,7 @@ RULES = [
     Rule('C02.R3', 'instrument-derived table indices in the synth are masked into range', 3),
     Rule('C02.R4', 'halving loops of the frequency search have a bounded trip count', 2),
     Rule('C02.R5', 'table reads of the chip layer at note-on / note-update are in range for every instrument and controller value', 10),
+    Rule('C02.R6', 'table reads inside the MAME, Nuked and GENS emulator cores are in range for every register value', 60),
 ]
 EXPLANATION = ('Byte-budget abstract interpretation (E1) of the structured bodies of the two loaders in the (cursor, length) dialect with the '
                'file-derived `version` case-split; CFG dominance for the error-return discipline; a forward must-dataflow ("value has a finite upper '
@@ -53,6 +55,8 @@ def analyse(facts, tier):
     if len(o5) < 10:
         raise build.AnalysisBroken('C02.R5: only %d index obligations in the chip layer' % len(o5))
     obls += o5
+    if facts.view == 'V0':
+        obls += r6_cores()
     return obls
 
 
@@ -276,9 +280,9 @@ def bounded_at(fn, header, vid):
                             e = cfg.edge_info(p, k)
                             if e and e['kind'] == 'branch':
                                 for f in literals(e['cond'], e['pol']):
-                                    if f[0] == 'cmp' and strip(f[2]).get('id') == vid and f[1] in ('<', '<=') and ('fc' in f[3] or 'c' in f[3]):
+                                    if f[0] == 'cmp' and _float_var(f[2]) == vid and f[1] in ('<', '<=') and ('fc' in f[3] or 'c' in f[3]):
                                         o = True
-                                    if f[0] == 'cmp' and strip(f[3]).get('id') == vid and f[1] in ('>', '>=') and ('fc' in f[2] or 'c' in f[2]):
+                                    if f[0] == 'cmp' and _float_var(f[3]) == vid and f[1] in ('>', '>=') and ('fc' in f[2] or 'c' in f[2]):
                                         o = True
                     # back edges into the header do not count for the entry fact
                     if b == header and cfg.reaches(b, p) and p != cfg.entry and cfg.block_dominates(b, p):
@@ -293,6 +297,16 @@ def bounded_at(fn, header, vid):
                 OUT[b] = o
                 changed = True
     return bool(IN.get(header))
+
+
+def _float_var(e):
+    """id of the floating variable compared, looking through casts that keep it floating only: `(uint32_t)hertz > C` says nothing about
+    hertz when it is +inf or out of the integer's range (the conversion is undefined; x86-64 yields 0)"""
+    while isinstance(e, dict) and e.get('k', '').endswith('CastExpr') and 'e' in e:
+        if not (e.get('t') or {}).get('f'):
+            return None
+        e = e['e']
+    return e.get('id') if isinstance(e, dict) and e.get('k') == 'DeclRefExpr' else None
 
 
 def _const_local(fn, ref):
@@ -314,3 +328,46 @@ def _const_local(fn, ref):
                     return False
                 ok = True
     return ok
+
+
+
+def r6_cores():
+    """Interval abstract interpretation of three vendored emulator cores as self-contained programs (field ranges from the stores of the
+    core, parameter ranges of static functions from their call sites, exported functions with full type ranges): every subscript of a
+    fixed-extent table is an obligation.  Register bytes reach the tables through masks and shifts, so a mask that is one bit too wide
+    shows up as an index range that leaves the table.  Subscripts that depend on relational state invariants of the chip model are kept
+    in a reviewed table (cores_assumed.json, one reason per entry, keyed by function and expression); anything else that cannot be
+    proven is a finding."""
+    import json, os
+    from ..core import Facts
+    from .. import e2prog
+    table = json.load(open(os.path.join(os.path.dirname(os.path.abspath(__file__)), 'cores_assumed.json')))
+    cf = Facts('CORES')
+    out = []
+    for core, ent in sorted(table.items()):
+        res = e2prog.analyse_program(cf, files=tuple(ent['files']))
+        per_fn = collections.OrderedDict()
+        seen = set()
+        for o in res['obl']:
+            if o.kind != 'index':
+                continue
+            key = '%s|%s' % (o.fn, o.construct)
+            fl = cf.fns.get(o.fn)
+            ffile = fl[0].file if fl else ent['files'][0]
+            if o.ok:
+                per_fn.setdefault(o.fn, [0, ffile, o.ln])[0] += 1
+                continue
+            if key in seen:
+                continue
+            seen.add(key)
+            why = ent['assumed'].get(key)
+            if why:
+                out.append(Obl('C02.R6', o.fn, o.construct[:70], '%s:%s' % (ffile, o.ln), 'assumed', why=why, nontrivial=False))
+            else:
+                out.append(Obl('C02.R6', o.fn, o.construct[:70], '%s:%s' % (ffile, o.ln), 'finding',
+                               why='index %s can leave the %s-entry table: a register / instrument byte reaches this table through a mask or shift that no longer keeps it in range (%s core)' % (o.idx, o.ext, core)))
+        for fn_, (cnt, ffile, ln) in per_fn.items():
+            out.append(Obl('C02.R6', fn_, '%d table read(s) in range' % cnt, '%s:%s' % (ffile, ln), 'discharged', why='interval engine: every index within its table for all register values (%s core)' % core))
+        if res['leaf_seen'] < 0.6 * res['leaf_total']:
+            raise build.AnalysisBroken('C02.R6: the interval engine reached only %d of %d statements of the %s core' % (res['leaf_seen'], res['leaf_total'], core))
+    return out
